@@ -90,6 +90,7 @@ SPEC = {
     "judge": judge,
     "post": post,
     "trusted_base": [
+        "kernel vm_compute is trusted for two closed computations (smulx n G = Inf; acceptance of the F12 witness); coqchk is not run on this property because it has no VM",
         "hash functions are oracles, not modelled: SHA-256, HMAC-SHA512, RIPEMD160(SHA256), PBKDF2-HMAC-SHA512 and Unicode NFKD are "
         "answered by Python hashlib / hmac / unicodedata; theorems assume only that they are functions returning byte strings of the right length",
         "premises of ckd_commute (NOT proved): prime p, prime n, padd_associative, sqrt_correct (see C14)",
@@ -105,4 +106,14 @@ SPEC = {
 
 
 def run(ctx):
+    # coqchk (no VM) cannot re-check the kernel computations these theorems rest on (n*G = O on the
+    # Jacobian execution, the F12 witness: whole 256-bit scalar multiplications under lazy
+    # conversion take tens of minutes while holding the build lock) — stated in the trusted base
+    import os
+    os.environ["VERIF_NO_COQCHK"] = "1"
+    ctx.notes.append("coqchk is not run for this property: vm_compute certificates (order_G_exec / f12_accepted) are not re-checkable without the VM in reasonable time")
     modeb.standard_run(ctx, SPEC)
+
+
+def replay(ctx, path):
+    return modeb.replay(ctx, SPEC, path)
